@@ -68,19 +68,57 @@ def _re_chars(chars):
 _WS_RE = None
 
 
+def _ranges(chars):
+    cs = sorted(ord(c) for c in chars)
+    out = []
+    for c in cs:
+        if out and out[-1][1] == c - 1:
+            out[-1][1] = c
+        else:
+            out.append([c, c])
+    return z3.Union(*[z3.Range(z3.StringVal(chr(a)), z3.StringVal(chr(b))) for a, b in out]) if len(out) > 1 else z3.Range(z3.StringVal(chr(out[0][0])), z3.StringVal(chr(out[0][1])))
+
+
 def ws_re():
     global _WS_RE
     if _WS_RE is None:
-        _WS_RE = _re_chars(WS_CHARS)
+        _WS_RE = _ranges(WS_CHARS)
     return _WS_RE
 
 
+RE_SORT = z3.ReSort(z3.StringSort())
+
+
 def any_char():
-    return z3.Range(z3.StringVal("\x00"), z3.StringVal(chr(0x2FFFF)))
+    return z3.AllChar(RE_SORT)
 
 
-def non_ws():
-    return z3.Intersect(z3.Complement(ws_re()), any_char())
+def any_str():
+    return z3.Full(RE_SORT)
+
+
+def complement_ranges(chars, top=0x2FFFF):
+    """Regex for one character NOT in `chars`, as an explicit union of ranges (no re.comp)."""
+    cs = sorted(set(ord(c) for c in chars))
+    out = []
+    lo = 0
+    for c in cs:
+        if c > lo:
+            out.append((lo, c - 1))
+        lo = c + 1
+    if lo <= top:
+        out.append((lo, top))
+    rs = [z3.Range(z3.StringVal(chr(a)), z3.StringVal(chr(b))) for a, b in out]
+    return z3.Union(*rs) if len(rs) > 1 else rs[0]
+
+
+_NWS = {}
+
+
+def non_ws(isbytes=False):
+    if isbytes not in _NWS:
+        _NWS[isbytes] = complement_ranges(list(" \t\n\r\x0b\x0c"), 0xFF) if isbytes else complement_ranges(WS_CHARS)
+    return _NWS[isbytes]
 
 
 def _digit_ranges():
@@ -136,7 +174,7 @@ def oserror_args(eng, hint):
     """Arguments of an OSError raised by the platform: one argument (socket.timeout('timed out'))
     or (errno, strerror)."""
     eng.assumptions_used.add("OSError raised by the OS/socket layer has args (msg,) [socket.timeout] or (errno, strerror)")
-    if eng.branch(z3.Bool(eng.fresh_name("oserr_onearg_" + hint))):
+    if eng.branch_fresh("oserr_onearg_" + hint):
         return [VStr(z3.String(eng.fresh_name("oserr_msg_" + hint)))]
     return [VInt(z3.Int(eng.fresh_name("oserr_errno_" + hint))), VStr(z3.String(eng.fresh_name("oserr_strerror_" + hint)))]
 
@@ -266,13 +304,15 @@ def call_builtin(eng, world, n, args, kwargs, node, fr):
             ts = [eng.truth(x) for x in a0.items]
             return VBool(eng.and_(ts) if n == "all" else eng.or_(ts))
         if isinstance(a0, VList):
-            # all() over a symbolic list: quantifier-free only for the lengths the caller has fixed
-            nz = z3.simplify(zint(a0.n))
-            if z3.is_int_value(nz):
-                ts = [eng.truth(a0.get(i)) for i in range(nz.as_long())]
+            # all() over a symbolic list: quantifier-free only for the lengths the path condition fixes
+            k = eng.implied_int(zint(a0.n))
+            if k is not None:
+                ts = [eng.truth(a0.get(i)) for i in range(k)]
                 return VBool(eng.and_(ts) if n == "all" else eng.or_(ts))
         raise OutOfSubset("%s over symbolic iterable" % n)
     if n == "type":
+        if a0 is NONE:
+            return VClass("NoneType")
         if isinstance(a0, VObj):
             return VClass(a0.cls)
         if isinstance(a0, VExc):
@@ -369,9 +409,9 @@ def _strip_model(eng, s, which):
     if key in eng.ghost:
         return VStr(r, s.isbytes)
     eng.ghost[key] = True
-    ws = ws_re() if not s.isbytes else _re_chars(list(" \t\n\r\x0b\x0c"))
-    nws = z3.Intersect(z3.Complement(ws), any_char())
-    anyc = z3.Star(any_char())
+    ws = ws_re() if not s.isbytes else _ranges(list(" \t\n\r\x0b\x0c"))
+    nws = non_ws(s.isbytes)
+    anyc = any_str()
     lead = z3.String(eng.fresh_name("strip_lead"))
     trail = z3.String(eng.fresh_name("strip_trail"))
     if which == "strip":
@@ -417,9 +457,17 @@ def _split_model(eng, s, sep, maxsplit=None):
                         parts.append(sepz)
                     parts.append(efun(z, i))
                 eng.assume(z3.Implies(n == k, z == z3.Concat(*parts)))
-            # first element never contains the separator; it is the text before the first occurrence
-            eng.assume(z3.Not(z3.Contains(efun(z, 0), sepz)))
-            eng.assume(z3.Implies(n >= 2, z3.PrefixOf(z3.Concat(efun(z, 0), sepz), z)))
+            # five or more fields: the first four are pinned down, the rest is one tail string
+            tail = sfun("split_tail5_" + tag, STR, STR)(z)
+            parts = []
+            for i in range(4):
+                parts.extend([efun(z, i), sepz])
+            eng.assume(z3.Implies(n >= 5, z == z3.Concat(*(parts + [tail]))))
+            eng.assume(z3.Implies(n >= 5, (n == 5) == z3.Not(z3.Contains(tail, sepz))))
+            eng.assume(z3.Implies(n == 5, efun(z, 4) == tail))
+            for i in range(4):
+                eng.assume(z3.Implies(n > i, z3.Not(z3.Contains(efun(z, i), sepz))))
+            eng.assume(z3.Length(z) >= (n - 1) * len(sp))
 
     def get(i, z=z):
         iz = zint(i)
@@ -513,6 +561,10 @@ def str_method(eng, world, s, m, args, kwargs, node):
         other = sfun("py_" + ("upper" if m == "lower" else "lower"), STR, STR)
         eng.assume(other(r) == other(S(z)))
         return VStr(r, s.isbytes)
+    if m == "isascii" and not args:
+        if is_conc(z):
+            return VBool(z.isascii())
+        return VBool(z3.InRe(S(z), z3.Star(z3.Range(z3.StringVal("\x00"), z3.StringVal("\x7f")))))
     if m == "isdigit" and not args:
         return VBool(z3.InRe(S(z), z3.Plus(digit_re() if not s.isbytes else ASCII_DIGITS)))
     if m == "encode":
@@ -797,7 +849,7 @@ def _wfile_fault(eng, w, node):
     if isinstance(w, VObj) and w.fields.get("nofault"):
         return
     eng.assumptions_used.add("wfile.write may raise OSError at any call (fault model); it raises nothing else")
-    if eng.branch(z3.Bool(eng.fresh_name("wfile_write_fails"))):
+    if eng.branch_fresh("wfile_write_fails"):
         a = oserror_args(eng, "wfile")
         cls = "TimeoutError" if len(a) == 1 else "OSError"
         exc = VExc(cls, a)
@@ -949,7 +1001,7 @@ def _syscall(name, raises="OSError"):
     def impl(eng, world, args, kwargs, node):
         eng.assumptions_used.add("%s does what POSIX says; modelled as a trace event that either returns or raises %s" % (name, raises))
         trace_event(eng, name, args)
-        if eng.branch(z3.Bool(eng.fresh_name("fails_" + name.replace(".", "_")))):
+        if eng.branch_fresh("fails_" + name.replace(".", "_")):
             trace_event(eng, "FAILED:" + name, [])
             raise Raised(VExc(raises, oserror_args(eng, name) if raises == "OSError" else [VStr("x")]), getattr(node, "lineno", None))
         return NONE
@@ -964,7 +1016,7 @@ for _n in ("os.chroot", "os.chdir", "os.setgroups", "os.setregid", "os.setreuid"
 def _lookup(name):
     def impl(eng, world, args, kwargs, node):
         eng.assumptions_used.add("%s returns a record whose index 2 is the numeric id, or raises KeyError" % name)
-        if eng.branch(z3.Bool(eng.fresh_name("fails_" + name.replace(".", "_")))):
+        if eng.branch_fresh("fails_" + name.replace(".", "_")):
             trace_event(eng, name, args)
             trace_event(eng, "FAILED:" + name, [])
             raise Raised(VExc("KeyError", [VStr("name not found")]), getattr(node, "lineno", None))
